@@ -122,7 +122,8 @@ fn word_fields(dict: &Dict, wid: WordId) -> Result<(Vec<String>, Vec<String>), S
     Ok((pos, fields))
 }
 
-fn build(env: &Env, l: &Layers) -> Result<Dict, String> {
+/// `from_files`: through configuration + files (memory-mapped), as the CLI and the Python binding do
+fn build(env: &Env, l: &Layers, from_files: bool) -> Result<Dict, String> {
     let plugins = plugins_for(l.plugin_pos);
     let mut users: Vec<Vec<u8>> = Vec::new();
     for (i, p) in l.dicts.iter().enumerate() {
@@ -136,14 +137,26 @@ fn build(env: &Env, l: &Layers) -> Result<Dict, String> {
         };
         users.push(compile_user(&base, &csv)?);
     }
+    if from_files {
+        let tag = format!("c12_{}", format!("{:?}", std::thread::current().id()).replace(|ch: char| !ch.is_ascii_digit(), ""));
+        return Ok(Arc::new(load_from_files(&env.dir, &plugins, &env.system, &users, &tag)?));
+    }
     Ok(Arc::new(load(&env.dir, &plugins, env.system.clone(), users)?))
 }
 
 fn check_layers(env: &Env, l: &Layers, o: &mut Outcome) {
+    // the same stack handed over as in-memory storage and as files named in the configuration
+    check_layers_route(env, l, o, false);
+    if o.failures.is_empty() {
+        check_layers_route(env, l, o, true);
+    }
+}
+
+fn check_layers_route(env: &Env, l: &Layers, o: &mut Outcome, from_files: bool) {
     o.evaluations += 1;
-    let ctx = format!("plugins register {} POS, user dictionaries built against {}, POS patterns {:?}", l.plugin_pos, if l.against_loaded { "the loaded dictionary" } else { "the bare system dictionary" }, l.dicts);
+    let ctx = format!("plugins register {} POS, user dictionaries built against {}, POS patterns {:?}{}", l.plugin_pos, if l.against_loaded { "the loaded dictionary" } else { "the bare system dictionary" }, l.dicts, if from_files { ", loaded from files through the configuration" } else { "" });
     let k = l.dicts.len();
-    let r = catch(|| build(env, l));
+    let r = catch(|| build(env, l, from_files));
     let dict = match r {
         Err(p) => {
             o.fail(Failure::panic(&format!("{}: building/loading", ctx), &p));
